@@ -11,6 +11,7 @@ import Melda.Diff
 import Melda.Flatten
 import Melda.Lru
 import Melda.Pack
+import Melda.Adapter
 namespace Melda
 
 /-- the real hash -/
@@ -28,6 +29,8 @@ def hexDecode : Str → Option Bytes
     | some x, some y, some r => some (UInt8.ofNat (x * 16 + y) :: r)
     | _, _, _ => none
   | _ => none
+
+def hexEncode (b : Bytes) : Str := b.flatMap hexByte
 
 def revFields (r : Rev) : Str :=
   natStr r.index ++ '|' :: (r.digest ++ '|' :: (r.render ++ '|' :: (if r.isCharcode then ['1'] else ['0'])))
@@ -83,6 +86,33 @@ def treeOps (ops : List JVal) : Str :=
       else (t, out ++ [S "badop"])
     | _ => (t, out ++ [S "badop"])
   joinWith [';'] (ops.foldl step (RevTree.empty, [])).2
+
+/-- the write-once key/value contract (`Melda.Adapter.KVSpec`) behind the `kv` channel -/
+def kvRun (ops : List JVal) : List Str :=
+  let step := fun (st : KVSpec × List Str) (o : JVal) =>
+    let (kv, out) := st
+    match o with
+    | .arr [.str k, .str key, .str hx] =>
+      if k = S "w" then
+        match hexDecode hx with
+        | some d => (kv.write key d, out ++ [S "ok"])
+        | none => (kv, out ++ [S "badhex"])
+      else (kv, out ++ [S "bad"])
+    | .arr [.str k, .str key] =>
+      if k = S "r" then
+        (kv, out ++ [match kv.read key with | some d => hexEncode d | none => S "err"])
+      else if k = S "l" then
+        (kv, out ++ [(JVal.arr ((kv.list key).map jstr)).render])
+      else (kv, out ++ [S "bad"])
+    | .arr [.str k, .str key, off, len] =>
+      if k = S "rr" then
+        match asNat? off, asNat? len with
+        | some o, some l => (kv, out ++ [match kv.readRange key o l with | some d => hexEncode d | none => S "err"])
+        | _, _ => (kv, out ++ [S "bad"])
+      else (kv, out ++ [S "bad"])
+    | .arr [.str k] => if k = S "reopen" then (kv, out ++ [S "ok"]) else (kv, out ++ [S "bad"])
+    | _ => (kv, out ++ [S "bad"])
+  (ops.foldl step (KVSpec.empty, [])).2
 
 def cmpName : Ordering → Str | .lt => S "lt" | .eq => S "eq" | .gt => S "gt"
 
@@ -174,6 +204,19 @@ def answer (req : JVal) : Str :=
             ins acc) []
           (JVal.arr (m.map (fun (d, o, l) => .arr [jstr d, numJ o, numJ l]))).render
         | none => S "badhex"
+      | _ => S "badreq"
+    else if op = S "rev.obj" then
+      match args with
+      | [.obj o] => match digestObject Hreal o with
+        | .ok d =>
+          let r := Rev.mk1 d
+          let s := r.render
+          s ++ S " -> " ++ (match Rev.parse s with | some r2 => revFields r2 | none => S "err")
+        | .error e => S "err " ++ msgPrefix e
+      | _ => S "badreq"
+    else if op = S "kv" then
+      match args with
+      | [_, .arr ops] => joinWith [';'] (kvRun ops)
       | _ => S "badreq"
     else S "unknown-op"
   | _ => S "badreq"
